@@ -4,6 +4,22 @@ From PV Require Import C09.Spec.
 Theorem disk_usage_spec st : disk_usage st = spec_usage st.
 Proof. reflexivity. Qed.
 
+(* written out: the unit is f_frsize, whatever f_bsize is *)
+Theorem disk_usage_unit bsize frsize blocks bfree bavail :
+  disk_usage {| f_bsize := bsize; f_frsize := frsize; f_blocks := blocks; f_bfree := bfree; f_bavail := bavail |}
+  = {| u_total := blocks * frsize;
+       u_used := blocks * frsize - bfree * frsize;
+       u_free := bavail * frsize;
+       u_percent := if (blocks * frsize - bfree * frsize) + bavail * frsize =? 0 then None
+                    else Some ((blocks * frsize - bfree * frsize) * 100,
+                               (blocks * frsize - bfree * frsize) + bavail * frsize) |}.
+Proof. reflexivity. Qed.
+
+Theorem disk_usage_bsize_irrelevant st bsize :
+  disk_usage {| f_bsize := bsize; f_frsize := f_frsize st; f_blocks := f_blocks st;
+                f_bfree := f_bfree st; f_bavail := f_bavail st |} = disk_usage st.
+Proof. reflexivity. Qed.
+
 (* kernel-shaped statvfs: nothing is negative, used + free never exceeds total,
    and the percentage lies in 0..100 *)
 Theorem disk_usage_bounds st :
@@ -27,7 +43,7 @@ Proof.
 Qed.
 
 Example disk_usage_example :
-  let st := {| f_frsize := 4096; f_blocks := 1000; f_bfree := 200; f_bavail := 100 |} in
+  let st := {| f_bsize := 1048576; f_frsize := 4096; f_blocks := 1000; f_bfree := 200; f_bavail := 100 |} in
   wf_statvfs st /\
   disk_usage st = {| u_total := 4096000; u_used := 3276800; u_free := 409600;
                      u_percent := Some (327680000, 3686400) |}.
